@@ -26,6 +26,9 @@ def make_config(rng: random.Random, profile: str, tier: str) -> dict:
     cfg['threads'] = rng.choice([1, 1, 2, 3, 0])
     # buggify: knobs the saved-iteration logic is supposed not to depend on
     cfg['max_report'] = rng.choice([15, 15, 0, 1, 2])
+    # simulated environment: a process whose preferred encoding is ASCII (text files opened without an explicit encoding
+    # cannot hold the non-ASCII parameter names)
+    cfg['locale'] = rng.choice([None, None, 'ascii'])
     if cfg['K'] <= 10 and not cfg.get('zero_peak') and rng.random() < 0.15:
         # every starting value written as a Python integer (Beta('b', 0, None, None, 0))
         cfg['init'] = [float(rng.choice([0, 0, 1, -1])) for _ in range(cfg['K'])]
@@ -218,6 +221,7 @@ class Session:
         fs.set_faults(ctx.faults)
         fs.on_event = self.on_fs_event
         fs.on_crash = ctx.crash
+        fs.locale_encoding = self.cfg.get('locale')
         ctx.fs = fs
         fs.begin_op(-1 - ctx.lifetime)
         fs.install()
